@@ -6,6 +6,7 @@
 //! so that a value bug cannot surface as a timing alarm).
 
 use crate::cpustate::CpuState;
+use crate::host::SimExtender;
 use crate::machine::*;
 use crate::prng::{Fnv, Rng};
 use crate::runner::{Fail, Property, RunCtx, Tier};
@@ -165,7 +166,7 @@ impl Property for C04 {
         ]
     }
     fn expected_probes(&self) -> Vec<&'static str> {
-        vec!["contended_cycle_delayed", "io_contended_high_even", "io_contended_high_odd", "io_even_uncontended_high", "bank_paged_contended_c000", "crossed_frame_end", "interrupt_in_case", "window_edge_start", "lockstep_contended_cycle"]
+        vec!["contended_cycle_delayed", "io_contended_high_even", "io_contended_high_odd", "io_even_uncontended_high", "bank_paged_contended_c000", "crossed_frame_end", "interrupt_in_case", "window_edge_start", "lockstep_contended_cycle", "word_access_on_window_border", "extender_installed", "extender_port_timed"]
     }
 
     fn gen(&self, rng: &mut Rng, _tier: Tier, _idx: u64) -> Scenario {
@@ -200,6 +201,21 @@ impl Property for C04 {
             }
         }
         let mut rng = Rng::new(sc.get("seed") as u64);
+        // a host I/O extender claiming some ports in a third of the runs: a claimed port is timed like any
+        // other port (the ULA does not know who answers)
+        let mut ext_ports: Vec<u16> = vec![];
+        if sc.get("seed") % 3 == 0 {
+            ctx.probe("extender_installed");
+            for _ in 0..6 {
+                ext_ports.push(match rng.below(4) {
+                    0 => (rng.u16() & 0x3F00) | 0x4000 | (rng.u16() & 0xFF), // contended high byte
+                    1 => rng.u16() & 0xFFFE,                                  // even
+                    2 => rng.u16() | 0x0001,                                  // odd
+                    _ => rng.u16(),
+                } | 0x0002); // never the paging port
+            }
+            e.set_io_extender(SimExtender { claimed: ext_ports.clone(), log: vec![], read_xor: rng.u8() });
+        }
         // random RAM so that instructions fetched from anywhere are varied
         for p in 0..ram_pages(m128) {
             rng.fill(e.verif_ram_page(p));
@@ -219,6 +235,7 @@ impl Property for C04 {
             let kind = rng.below(6);
             goto_t(&mut e, t, f);
             let c = map.contended_addr(addr);
+            let mut used_port: Option<u16> = None;
             let (exp, name): (u64, &str) = match kind {
                 0 => {
                     e.verif_bus().read(addr, 3);
@@ -242,12 +259,20 @@ impl Property for C04 {
                     (x, "delayloop")
                 }
                 4 => {
-                    let port = addr | 0x0002; // never the paging port
+                    let port = if !ext_ports.is_empty() && rng.bool() { *rng.pick(&ext_ports) } else { addr | 0x0002 }; // never the paging port
+                    if ext_ports.contains(&port) {
+                        ctx.probe("extender_port_timed");
+                    }
+                    used_port = Some(port);
                     e.verif_bus().read_io(port);
                     (ula.io_cycle(t, port, map.contended_addr(port)), "ioread")
                 }
                 _ => {
-                    let port = addr | 0x0002;
+                    let port = if !ext_ports.is_empty() && rng.bool() { *rng.pick(&ext_ports) } else { addr | 0x0002 };
+                    if ext_ports.contains(&port) {
+                        ctx.probe("extender_port_timed");
+                    }
+                    used_port = Some(port);
                     e.verif_bus().write_io(port, rng.u8() & 0x07);
                     (ula.io_cycle(t, port, map.contended_addr(port)), "iowrite")
                 }
@@ -255,7 +280,9 @@ impl Property for C04 {
             let got = e.verif_frame_clocks() as u64;
             let exp_wrapped = if exp >= f { exp - f } else { exp };
             let port_like = kind >= 4;
-            let cc = if port_like { map.contended_addr(addr | 2) } else { c };
+            let addr = used_port.unwrap_or(addr);
+            let claimed = used_port.map(|p| ext_ports.contains(&p)).unwrap_or(false);
+            let cc = if port_like { map.contended_addr(addr) } else { c };
             if port_like {
                 match (cc, addr & 1 == 0) {
                     (true, true) => ctx.probe("io_contended_high_even"),
@@ -267,7 +294,7 @@ impl Property for C04 {
             if got != exp_wrapped {
                 return Err(Fail::new(
                     "C04.bus_op",
-                    &format!("machine={},op={},contended={},even={}", machine, name, cc as u8, (addr & 1 == 0) as u8),
+                    &format!("machine={},op={},contended={},even={}{}", machine, name, cc as u8, (addr & 1 == 0) as u8, if claimed { ",extender=1" } else { "" }),
                     format!("{} at {:04X} starting at T={} ((T-T0) mod line = {}, in window {}): clock advanced to {}, model says {} (contended address: {})", name, addr, t, (t + f - ula.t0) % f % ula.line, ula.in_window(t), got, exp_wrapped, cc),
                 ));
             }
@@ -320,7 +347,44 @@ impl Property for C04 {
                     _ => st.pc = b.wrapping_sub(rng.below(4) as u16),
                 }
             }
-            let enc = encode_stratified(&mut rng);
+            let mut enc = encode_stratified(&mut rng);
+            // 16-bit direct addresses on the borders between differently contended 16 KiB windows (both
+            // bytes of the access have their own contention status)
+            if rng.chance(1, 4) {
+                let b = *rng.pick(&[0x3FFFu16, 0x7FFF, 0xBFFF, 0xFFFF, 0x3FFE, 0x4000, 0x7FFE, 0x8000, 0xBFFE, 0xC000]);
+                enc = match rng.below(6) {
+                    0 => vec![*rng.pick(&[0x22u8, 0x2A, 0x32, 0x3A]), b as u8, (b >> 8) as u8],
+                    1 => vec![0xED, *rng.pick(&[0x43u8, 0x53, 0x63, 0x73, 0x4B, 0x5B, 0x6B, 0x7B]), b as u8, (b >> 8) as u8],
+                    2 => vec![*rng.pick(&[0xDDu8, 0xFD]), *rng.pick(&[0x22u8, 0x2A]), b as u8, (b >> 8) as u8],
+                    3 => {
+                        st.sp = b;
+                        vec![*rng.pick(&[0xE3u8, 0xC1, 0xC9, 0xE1])]
+                    }
+                    4 => {
+                        st.sp = b.wrapping_add(1 + rng.below(2) as u16);
+                        vec![*rng.pick(&[0xC5u8, 0xE5, 0xCD, 0xFF]), rng.u8(), rng.u8()]
+                    }
+                    _ => {
+                        st.sp = b;
+                        vec![*rng.pick(&[0xDDu8, 0xFD]), 0xE3]
+                    }
+                };
+                ctx.probe("word_access_on_window_border");
+            }
+            // ports claimed by the extender
+            if !ext_ports.is_empty() && rng.chance(1, 5) {
+                let port = *rng.pick(&ext_ports);
+                st.bc = port;
+                st.af = (st.af & 0x00FF) | (port & 0xFF00);
+                enc = match rng.below(5) {
+                    0 => vec![0xED, *rng.pick(&[0x41u8, 0x49, 0x51, 0x59, 0x61, 0x69, 0x71, 0x79])],
+                    1 => vec![0xED, *rng.pick(&[0x40u8, 0x48, 0x50, 0x58, 0x60, 0x68, 0x70, 0x78])],
+                    2 => vec![0xD3, port as u8],
+                    3 => vec![0xDB, port as u8],
+                    _ => vec![0xED, *rng.pick(&[0xA3u8, 0xAB, 0xB3, 0xBB, 0xA2, 0xAA])],
+                };
+                ctx.probe("extender_port_timed");
+            }
             write_mem(&mut e, st.pc, &enc);
             let t = pick_t(&mut rng, &ula);
             if (ula.t0.saturating_sub(2)..ula.t0 + 2).contains(&(t % ula.line + (t / ula.line) * ula.line)) || ula.in_window(t) != ula.in_window(t + 1) {
